@@ -36,6 +36,8 @@ type Program struct {
 	preds        map[string]*Pred
 	axioms       map[string][]*Clause // package path -> axioms of its contract file
 	privCache    map[*ssa.Function]map[ssa.Value]bool
+	ghostDecls   map[string]*GhostVar // every ghost variable declared by some contract (auto-declared elsewhere)
+	ghostPkg     map[string]string
 	loadSeconds  float64
 }
 
@@ -95,7 +97,7 @@ func loadProgram(dir string, patterns []string, overlay map[string][]byte) (*Pro
 	P := &Program{dir: dir, pkgs: pkgs, prog: prog, contracts: map[string]*FuncContract{},
 		loopCache: map[*ssa.Function]map[*ssa.BasicBlock]*loopInfo{}, constGlobals: map[string]bool{},
 		globalInit: map[string][]constant.Value{}, globalType: map[string]types.Type{}, tagSeq: map[string]bool{}, extraImports: map[string]*types.Package{},
-		allPkgs: map[string]*packages.Package{}, specOpts: map[string][]string{}, preds: map[string]*Pred{}, axioms: map[string][]*Clause{}, privCache: map[*ssa.Function]map[ssa.Value]bool{}}
+		allPkgs: map[string]*packages.Package{}, specOpts: map[string][]string{}, preds: map[string]*Pred{}, axioms: map[string][]*Clause{}, privCache: map[*ssa.Function]map[ssa.Value]bool{}, ghostDecls: map[string]*GhostVar{}, ghostPkg: map[string]string{}}
 	packages.Visit(pkgs, nil, func(p *packages.Package) { P.allPkgs[p.PkgPath] = p })
 	// build only repo packages (dependencies stay as declarations: calls into them are external)
 	for _, p := range P.allPkgs {
@@ -137,6 +139,12 @@ func loadProgram(dir string, patterns []string, overlay map[string][]byte) (*Pro
 						return nil, fmt.Errorf("%s:%d: duplicate contract for %s", fc.File, fc.Line, key)
 					}
 					P.contracts[key] = fc
+					for _, gv := range fc.Ghosts {
+						if _, ok := P.ghostDecls[gv.Name]; !ok {
+							P.ghostDecls[gv.Name] = &GhostVar{Name: gv.Name, Type: gv.Type}
+							P.ghostPkg[gv.Name] = p.PkgPath
+						}
+					}
 				}
 			}
 		}
